@@ -68,6 +68,11 @@ value back, integers re-kinded the way the parser kinds them (which Rust's `Valu
 theorem C09_parse_print_compact (v : Value) (hw : v.wf = true) (fuel : Nat) (hf : 6 * v.size ≤ fuel) :
     parseFuel fuel (print .compact v) = .ok v.norm := parseFuel_print_compact v hw fuel hf
 
+/-- The same for `parse` itself (the function the driver runs against the real parser): its built-in fuel
+`12 * length + 6` is enough on printer output, because `size v ≤ 2 * length (print v) + 1`. -/
+theorem C09_parse_print_compact_parse (v : Value) (hw : v.wf = true) : parse (print .compact v) = .ok v.norm :=
+  parse_print_compact v hw
+
 /-- A value of the fragment with attributes (with and without bodies), slots with `Extant` keys and values, text that
 needs quoting, a blob, integers of several kinds. -/
 def exampleValue : Value :=
@@ -82,6 +87,9 @@ example : parseFuel 200 (print .compact exampleValue) = .ok exampleValue.norm :=
 /-- **Stable**: what one print/parse cycle returns (`norm v`) is a fixed point of further cycles. -/
 theorem C09_fixpoint_compact (v : Value) (hw : v.wf = true) (fuel : Nat) (hf : 6 * v.size ≤ fuel) :
     parseFuel fuel (print .compact v.norm) = .ok v.norm := fixpoint_compact v hw fuel hf
+
+theorem C09_fixpoint_compact_parse (v : Value) (hw : v.wf = true) : parse (print .compact v.norm) = .ok v.norm :=
+  parse_fixpoint_compact v hw
 
 example : exampleValue.norm ≠ exampleValue ∧ exampleValue.norm.norm = exampleValue.norm := by decide
 
@@ -130,10 +138,6 @@ theorem C09_parse_print_bare_attr_key_fails :
 /-- The same for the standard and the pretty printer (white space, line breaks and indentation). -/
 def C09_parse_print_std_pretty_open : Prop :=
   ∀ (st : Style) (v : Value), v.wf = true → ∀ fuel, 6 * v.size ≤ fuel → parseFuel fuel (print st v) = .ok v.norm
-
-/-- The built-in fuel of `parse` (`2 * length + 2`) is enough on printer output. -/
-def C09_parse_fuel_adequate_open : Prop :=
-  ∀ v : Value, v.wf = true → parse (print .compact v) = .ok v.norm
 
 /-- Floats: the shortest decimal of a finite float, written in either of the two formats (`ryu`, `{:e}`), is read back
 as the same decimal. -/
